@@ -81,6 +81,12 @@ Deepening round (2026-09-26):
   * Graph.sort on a graph nested in a FUNCTION body (kind function with nested target; corpus 15).
   Not done: a frame THEOREM for graphs outside the sorted scope (the model returns the orders of the scope only; the
   out-of-scope graphs are checked unchanged by the oracle on every nested-target case).
+Round 5 (seeded r5m1 stale tail pointer after a position-preserving move of the tail; r5m2 journaling wrapper of
+  Graph.extend exhausting the one-shot `reversed(...)` iterator): histories now contain position-preserving moves
+  (insert_after / insert_before / Node.append / Node.prepend of a node to where it already is, Graph.append of the
+  tail; k<0 = the tail pair) and every sort is followed by a consistency check of list(graph) against
+  reversed(graph), len(graph), graph[0], graph[-1]; 15% of the cases run all their sorts inside 1-2 active
+  onnx_ir.journaling.Journal()s (result must equal the model's).
 Modelled, not verified: heapq (contract only), DoublyLinkedSet internals (C11), node.graph bookkeeping
   and name authority (C01), dict/set iteration order (independent per-graph relinking).
 Finding, fixed in /repo by 86f4e6a (known_findings.d/C12.json, status "fixed"): a GRAPH/GRAPHS-typed
@@ -536,8 +542,10 @@ def gen_case(rng, small: bool = False) -> dict:
         # malformed stream: one Graph object under two attributes — the only way the public API breaks `wf`
         case["mode"], case["shared"], case["target"] = "shared", True, units[0]["gid"]
         return case
-    if rng.random() < 0.35:
+    if rng.random() < 0.4:
         case["history"] = gen_history(rng, case)
+    if rng.random() < 0.15:
+        case["journal"] = rng.choice([1, 1, 2])      # sorts run while onnx_ir.journaling.Journal()s are active
     return case
 
 
@@ -651,7 +659,30 @@ def run_impl(case: dict) -> dict:
     node_obj = {nid: objs[pyid] for pyid, nid in ids.items()}
     state = {}
 
+    def seq_problems() -> list:
+        """list(graph) against the other views of the same sequence (a corrupted link shows here first)."""
+        out = []
+        for gid, gr in graphs.items():
+            fwd = list(gr)
+            if [ids.get(id(n)) for n in reversed(gr)] != [ids.get(id(n)) for n in fwd][::-1]:
+                out.append(f"graph {gid}: reversed(graph) is not list(graph) backwards")
+            if len(gr) != len(fwd):
+                out.append(f"graph {gid}: len(graph)={len(gr)} but list(graph) has {len(fwd)} nodes")
+            if fwd and (gr[-1] is not fwd[-1] or gr[0] is not fwd[0]):
+                out.append(f"graph {gid}: graph[0]/graph[-1] are not the ends of list(graph)")
+        return out
+
     def one_sort() -> dict:
+        import contextlib
+        with contextlib.ExitStack() as stack:
+            for _ in range(case.get("journal", 0)):
+                from onnx_ir.journaling import Journal
+                stack.enter_context(Journal())
+            o = one_sort_inner()
+        o["seq_bad"] = seq_problems()
+        return o
+
+    def one_sort_inner() -> dict:
         before = observe(case, graphs, ids)
         outcome, modified = "ok", None
         try:
@@ -697,6 +728,24 @@ def run_impl(case: dict) -> dict:
                 graphs[e[1]].append(node_obj[e[2]])
             elif e[0] == "move_before":
                 graphs[e[1]].insert_before(node_obj[e[3]], node_obj[e[2]])
+            elif e[0].startswith("noop"):
+                # position-preserving "moves": put a node where it already is (k < 0: the tail pair)
+                cur_nodes = list(graphs[e[1]])
+                if len(cur_nodes) >= 2:
+                    i = len(cur_nodes) - 2 if e[2] < 0 else e[2] % (len(cur_nodes) - 1)
+                    x, y = cur_nodes[i], cur_nodes[i + 1]
+                    if e[0] == "noop_after":
+                        graphs[e[1]].insert_after(x, y)
+                    elif e[0] == "noop_before":
+                        graphs[e[1]].insert_before(y, x)
+                    elif e[0] == "noop_nappend":
+                        x.append(y)
+                    elif e[0] == "noop_nprepend":
+                        y.prepend(x)
+                    elif e[0] == "noop_append":
+                        graphs[e[1]].append(cur_nodes[-1])
+                elif cur_nodes and e[0] == "noop_append":
+                    graphs[e[1]].append(cur_nodes[-1])
             apply_edit_json(cur, e)
         now = derived_case(cur, observe(case, graphs, ids))
         phases.append({"case": now, "obs": one_sort()})
@@ -719,6 +768,13 @@ def gen_history(rng, case: dict) -> list:
             u = rng.choice(cur["units"])
             nodes = list(walk_nodes(u))
             if not nodes:
+                continue
+            r = rng.random()
+            if r < 0.3:
+                g = rng.choice(list(walk_graphs(u)))
+                e = [rng.choice(["noop_after", "noop_before", "noop_nappend", "noop_nprepend", "noop_append"]),
+                     g["gid"], rng.choice([-1, -1, 0, 1, 2, 3])]
+                phase.append(e)
                 continue
             r = rng.random()
             if r < 0.55:
@@ -844,8 +900,8 @@ def oracle_shared(case: dict, obs: dict) -> list[str]:
 
 def oracle(case: dict, obs: dict) -> list[str]:
     if case.get("shared"):
-        return oracle_shared(case, obs)
-    bad = []
+        return oracle_shared(case, obs) + list(obs.get("seq_bad", []))
+    bad = list(obs.get("seq_bad", []))
     before, after = obs["before"], obs["after"]
     if not obs["owner_ok"]:
         bad.append("a node's graph is not the graph holding it after the sort")
@@ -1033,6 +1089,8 @@ def _remove_node(case: dict, nid: int) -> dict | None:
         return None
     if "history" in c:
         def alive(e):
+            if e[0].startswith("noop"):
+                return True
             if e[0] == "rewire":
                 return e[1] not in dead and (e[3] is None or e[3][0] not in dead)
             if e[0] == "rauw":
@@ -1106,6 +1164,11 @@ def shrink(case: dict, fails) -> dict:
                         changed = True
                     else:
                         n["const"] = old_c
+        if cur.get("journal"):
+            c2 = dict(cur)
+            c2.pop("journal")
+            if fails(c2):
+                cur, changed = c2, True
         if cur.get("alloc"):
             c2 = dict(cur, alloc=0)
             if fails(c2):
@@ -1212,6 +1275,8 @@ def features(ck, case: dict, obs: dict) -> None:
         ck.hist("features", "sort_called_on_nested_graph" + ("_of_function_body" if case["kind"] == "function" else ""))
     if case.get("shared"):
         ck.hist("shared_subgraph_outcomes", obs["outcome"])
+    if case.get("journal"):
+        ck.hist("features", f"sorted_inside_{case['journal']}_journal(s)")
     moved = any(obs["before"][k] != obs["after"][k] for k in obs["before"])
     if moved:
         ck.hist("features", "order_changed")
